@@ -436,6 +436,10 @@ def run(ctx: Ctx) -> None:
                       "file system, and make the store path - and whether two paths overlap - depend on the symbolic links of the machine")
     _n_spl = _spl(ctx, "C11.R16")
     rep.floor("C11.R16", _n_spl, 1)
+    rep.rule("C11.R19", "a method called on the value of a dds call (`dds.load(p).upper()`) is not taken for that dds call: the dispatch of both inspectors on the API paths is "
+                        "passed only by calls whose function expression is not the result of another call (a well-formed evaluation is not refused, no stray path is loaded)")
+    n19 = method_on_result_is_not_the_call(ctx, "C11.R19")
+    rep.floor("C11.R19", n19, 2)
     rep.rule("C11.R18", "circular calls are refused whatever the kind of edge: the visitors hand their own call stack to every inspection they start (calls and references by name)")
     n18 = visitors_hand_over_stack(ctx, "C11.R18")
     rep.floor("C11.R18", n18, 4)
@@ -837,6 +841,75 @@ def _record_push(f: Func, e: ast.AST, call: ast.Call) -> bool:
             if rec not in f.params and isinstance(obj, ast.Attribute) and isinstance(obj.value, ast.Name) and obj.value.id == rec and obj.attr != lst.elts[0].attr:
                 return True
     return False
+
+
+def method_on_result_is_not_the_call(ctx: Ctx, rule: str) -> int:
+    """`dds.load(p).upper()`: the visitors name a call by the chain of names of its function expression and go THROUGH the calls in it (`dds/load/upper`); the
+    resolver stops at the function `dds.load`.  The outer call - a method of the loaded value - must not be dispatched as the dds call: in each call inspector,
+    every dispatch on a constant API path is passed only by calls whose function expression is not (an attribute of) the result of another call, or whose callee
+    path is none of the API paths the inspector dispatches on."""
+    rep = ctx.report
+    prog = ctx.prog
+    # the predicate: descends `.value` of ast.Attribute nodes and answers isinstance(.., ast.Call)
+    preds: List[Func] = []
+    for g in prog.funcs.values():
+        if not g.module.name.startswith("dds") or g.module.name.startswith("dds_tests"):
+            continue
+        txt_ret = [unparse(r.value, 80) for r in g.own_nodes() if isinstance(r, ast.Return) and r.value is not None]
+        if any(t.startswith("isinstance(") and t.endswith("ast.Call)") for t in txt_ret) \
+                and any(isinstance(w, (ast.While, ast.If)) and "ast.Attribute" in unparse(w.test, 80) for w in g.own_nodes()) \
+                and any(isinstance(a, ast.Attribute) and a.attr == "value" for a in g.own_nodes()):
+            preds.append(g)
+    n = 0
+    for fam in families(ctx):
+        f = fam.holder
+        cfg = cfg_of(f)
+        node_p = next((p_ for p_ in f.positional_params() if p_ not in ("cls", "self")), "node")
+        dispatch = [c for c in f.own_nodes() if isinstance(c, ast.Compare) and len(c.ops) == 1 and isinstance(c.ops[0], ast.Eq)
+                    and (_const_path(c.comparators[0]) or _const_path(c.left) or ())[:1] == ("dds",)]
+        dispatch += list(fam.dispatch_calls)
+        D = {(_const_path(c.comparators[0]) or _const_path(c.left)) for c in dispatch if isinstance(c, ast.Compare)} | set(fam.table_keys)
+        if not dispatch:
+            continue
+        n += 1
+        desc = f"{f.name}: a call on the value of another call (`dds.load(p).upper()`) is not dispatched as a dds call"
+        lets_through: List[Node] = []
+        why = "no test of the shape of the called expression (`isinstance(<function expression, below its attributes>, ast.Call)`) precedes the dispatch"
+        for st in f.own_nodes():
+            if not isinstance(st, ast.If) or not st.body or not isinstance(st.body[-1], (ast.Return, ast.Raise)):
+                continue
+            atoms = st.test.values if isinstance(st.test, ast.BoolOp) and isinstance(st.test.op, ast.And) else [st.test]
+            pcalls = [a for a in atoms if isinstance(a, ast.Call) and any(g in preds for g in prog.callees(f, a, ctx._types)[0]) and a.args
+                      and unparse(a.args[0]) == f"{node_p}.func"]
+            if not pcalls:
+                continue
+            others = [a for a in atoms if a not in pcalls]
+            covered = True
+            for a in others:
+                ok_a = False
+                if isinstance(a, ast.Compare) and len(a.ops) == 1 and isinstance(a.ops[0], ast.In) and isinstance(a.comparators[0], (ast.Tuple, ast.List, ast.Set)):
+                    S = {_const_path(e) for e in a.comparators[0].elts}
+                    ok_a = None not in S and D <= S
+                    if not ok_a:
+                        why = f"{f.loc(a)}: the exemption covers {sorted(x for x in S if x)} only; the inspector dispatches on {sorted(D)}"
+                if not ok_a:
+                    covered = False
+            if not covered:
+                continue
+            for a in pcalls + others:
+                lets_through += [b for b in cfg.nodes if b.kind == "branch" and b.ast is a and b.label == "F"]
+        w = None
+        if lets_through:
+            for d_ in dispatch:
+                w = w or dominated(ctx, f, d_, lets_through)
+        if lets_through and w is None:
+            rep.ok(rule, f.qname, desc, f.loc(dispatch[0]))
+        else:
+            rep.bad(rule, f.qname, desc, f.loc(dispatch[0]), ([why] if not lets_through else ["a path reaches the dispatch without the test:"] + (w or [])) + [
+                    "`def shout(): return dds.load('/w/p').upper()` kept by an evaluation: the call `.upper()` is named dds/load/upper, resolved to dds.load and refused with 'Wrong number of "
+                    "args: expected 1, got []'; `dds.load('/w/p').startswith('/zzz')` makes the analysis ask the store for '/zzz' (demo: /verif/findings/F48_method_on_loaded_value.py)"],
+                    "method-on-result", what="a method called on the value of a dds call is analysed as that dds call")
+    return n
 
 
 def _stack_push(e: ast.AST) -> Optional[ast.Name]:
